@@ -3,6 +3,18 @@ EXTENDS PredictedImage
 \* three rows: every pair of consecutive row filter types occurs (125 sequences); 1-bit rows of 9 pixels span 2 bytes
 ShapesQuick == {<<"gray", 3, 3>>, <<"rgb", 2, 3>>, <<"bw", 9, 3>>}
 ShapesFull == {<<"gray", 3, 4>>, <<"rgb", 2, 4>>, <<"rgb", 3, 3>>, <<"bw", 9, 4>>, <<"gray", 1, 3>>, <<"bw", 17, 3>>}
+AllRowTypes == 0..4
+Arithmetic == <<>>
+\* Paeth ties: every assignment of the palette to the pixels of a 2x2 image puts every triple left / above / upper left over the
+\* palette in front of the predictor.  <<0, 80, 120, 200>> gives the four ties that decide something, the winner being the larger
+\* and the smaller value: pb = pc (120, 0, 80: above < upper left; 80, 200, 120: above > upper left), pa = pc (0, 120, 80;
+\* 200, 80, 120); 90 / 100 / 120 are the values of the seeded example.  Both rows Paeth-filtered; thorough: first row also unfiltered.
+ShapesTies == {<<"gray", 2, 2>>, <<"rgb", 2, 2>>}
+PaethOnly == {4}
+TieRowTypes == {0, 4}
+PaletteTies == <<0, 80, 120, 200>>
+PaletteTiesFull == <<0, 80, 90, 100, 120, 200>>
+DevTie == {{"PaethTieByValue"}}
 OnlyIntended == {{}}
 DevNone == {{"NoneKeepsAbove"}}
 ====
